@@ -357,7 +357,10 @@ def specInner (sa sb : Shape) : Option (Arr (List Term)) :=
 
 /-- `np.outer`: `out[i, j] = a.ravel()[i] · b.ravel()[j]` -/
 def specOuter (sa sb : Shape) : Arr Term :=
-  ⟨[prod sa, prod sb], fun d => (ndindex sa (d.headD 0), ndindex sb ((d.drop 1).headD 0))⟩
+  ⟨[prod sa, prod sb], fun d =>
+    match d with
+    | [x, y] => (ndindex sa x, ndindex sb y)
+    | _ => ([], [])⟩
 
 /-- `np.vecdot`: the last axes (equal length) are contracted, the leading axes broadcast -/
 def specVecdot (sa sb : Shape) : Option (Arr (List Term)) :=
